@@ -1,1 +1,5 @@
+import TephraProps.C03
 import TephraProps.C17
+import TephraProps.C18
+import TephraProps.C19
+import TephraProps.C20
